@@ -613,6 +613,13 @@ def r6_space(ctx):
     loops = [n for n in ae.own_nodes() if isinstance(n, ast.While)]
     ctx.require(len(loops) == 1, "C17.R6: eviction loop of the cache's add_elem not found")
     evict = _lin_cmp(ctx, ae, loops[0].test)
+    if evict is None:
+        # `while <no room> and <something left to evict>`: the space test is
+        # the linear conjunct of the loop condition
+        from ..cfg import flatten_conj
+        lin = [x for x in (_lin_cmp(ctx, ae, t, pol)
+                           for t, pol in flatten_conj(loops[0].test, True)) if x is not None]
+        evict = lin[0] if len(lin) == 1 else None
     ctx.require(evict is not None, "C17.R6: eviction condition `%s` is not a "
                 "linear comparison" % text(loops[0].test))
     # the shortcut: first `if <linear cmp>: to_buffer = True` of the miss path
